@@ -387,6 +387,11 @@ class Exec:
             owner, prom = pm.groups()
             for f in prog.resolve(owner, None):
                 cands += prog.fns.get(f.name + '::' + prom, [])
+            if not cands and '::<impl ' in owner:
+                # `f::<impl Trait>` : an impl-Trait type argument of a generic function, not an inherent-impl path segment
+                owner2 = re.sub(r'::<impl [^<>]*>', '', owner)
+                for f in prog.resolve(owner2, None):
+                    cands += prog.fns.get(f.name + '::' + prom, [])
             if not cands:
                 for fname, lst in prog.fns.items():
                     if fname.endswith('::' + prom) and strip_generics(fname[:-(len(prom) + 2)]) == owner:
@@ -1056,7 +1061,7 @@ class Exec:
         if t.startswith('falseEdge') or t.startswith('falseUnwind'):
             m = re.search(r'-> \[real: (bb\d+)', t)
             return m.group(1)
-        m = re.match(r'(.+?) = (.+)\((.*)\) -> (?:\[return: (bb\d+).*\]|unwind.*)$', t, flags=re.S)
+        m = re.match(r'(.+?) = (.+)\((.*)\) -> (?:\[return: (bb\d+).*\]|unwind.*|bb\d+)$', t, flags=re.S)
         if not m:
             m = re.match(r'(.+?) = (.+)\((.*)\)()$', t, flags=re.S)      # diverging call without targets
         if m:
@@ -1101,6 +1106,10 @@ class Exec:
         e = body.rfind(') -> [')
         if e < 0:
             e = body.rfind(') -> unwind')
+        if e < 0:
+            mm = re.search(r'\) -> bb\d+$', body)
+            if mm:
+                e = mm.start()
         if e < 0:
             e = body.rfind(')')
         d = 0; i = e
